@@ -213,7 +213,16 @@ impl Prop for C07 {
                 (format!("STR$({})", k), Want::Str(w), "STR$")
             }
             20 => {
-                let cases: [(&str, Want); 14] = [
+                let cases: [(&str, Want); 22] = [
+                    // radix prefixes inside VAL are not documented: the value is not judged, a crash is
+                    ("&", Want::Skip),
+                    ("&H", Want::Skip),
+                    ("&HG1", Want::Skip),
+                    ("&9", Want::Skip),
+                    ("&é", Want::Skip),
+                    ("&h", Want::Skip),
+                    ("&H1F", Want::Skip),
+                    ("1&", Want::Num(1)),
                     ("12", Want::Num(12)),
                     ("  7", Want::Num(7)),
                     ("12AB", Want::Num(12)),
